@@ -222,7 +222,7 @@ func genSpec(t *rapid.T, kind string) iters.Spec {
 		s.Cmp = dom.TotalCmps[rapid.IntRange(0, len(dom.TotalCmps)-1).Draw(t, "cmp")]
 	}
 	if kind == "btree" {
-		s.Order = []int{3, 4, 5, 7, 9, 16, 33}[rapid.IntRange(0, 6).Draw(t, "order")]
+		s.Order = []int{3, 4, 5, 7, 9, 16, 33, 129, 258, 300, 512}[rapid.IntRange(0, 10).Draw(t, "order")]
 	}
 	if kind == "circularbuffer" {
 		s.Cap = ringCaps[rapid.IntRange(0, len(ringCaps)-1).Draw(t, "cap")]
@@ -237,6 +237,15 @@ func genSpec(t *rapid.T, kind string) iters.Spec {
 	s.Adds = rapid.SliceOfN(rapid.IntRange(0, hi), 0, maxN).Draw(t, "adds")
 	if maxN == 400 {
 		s.Adds = append(s.Adds, rapid.SliceOfN(rapid.IntRange(0, hi), 40, 200).Draw(t, "more")...)
+	}
+	if kind == "btree" && s.Order > 128 && rapid.IntRange(0, 3).Draw(t, "fill-wide-node") == 2 {
+		// a node with hundreds of entries (in-node positions beyond 127 and 255)
+		n := rapid.IntRange(s.Order/2, 2*s.Order).Draw(t, "wide-fill")
+		start, stride := rapid.IntRange(0, 50).Draw(t, "wide-start"), rapid.IntRange(1, 3).Draw(t, "wide-stride")
+		s.Adds = s.Adds[:min(len(s.Adds), 5)]
+		for i := 0; i < n; i++ {
+			s.Adds = append(s.Adds, start+i*stride)
+		}
 	}
 	s.Rems = rapid.SliceOfN(rapid.IntRange(0, hi), 0, 3).Draw(t, "rems")
 	switch kind {
